@@ -46,6 +46,7 @@ func init() {
 		Explanation: "Decides the root-set and guard shape of garbage collection: (gc-root-set) the object walk used by Prune and RepackObjects reaches ReferenceStorer.IterReferences and IndexStorer.Index, and both callers delete only after it succeeded; " +
 			"(prune-only-unseen) Prune hands an object to the handler only on the !isSeen edge, repack deletes a loose object only on the isSeen edge; (old-pack-kept-if-same) RepackObjects never deletes the pack it just wrote. " +
 			"(deletion-set-fixed-before-walk) RepackObjects lists the packs it will delete before it builds the new pack, so a pack stored by another writer during the walk is not deleted. " +
+			"(index-roots-skip-only-gitlinks) in objectWalker.walkIndex an index entry is passed over only for a zero hash, the gitlink mode, an object already marked or one missing from the store — any other test of the entry (its mode in particular) takes staged executables or symlinks out of the root set. " +
 			"Not decided: that the walk visits every reachable object; reflog roots.",
 		Assumptions: []string{"IterReferences lists HEAD and every reference"},
 		Run:         runC22,
@@ -983,6 +984,7 @@ func runC22(c *Ctx) {
 		return
 	}
 	info := gitPk.TypesInfo
+	checkIndexRootsSkipOnlyGitlinks(c, "index-roots-skip-only-gitlinks")
 	const r1 = "gc-root-set"
 	walk := p.Func("git.(*objectWalker).walkAllRefs")
 	if walk == nil {
